@@ -52,9 +52,10 @@ def build_cases(rng, n_desc, gen_kwargs=None, values_per_stream=(2, 2, 1), decod
         descs.append((ps, is_resp, g))
     # load in batches of documents (one document per description keeps failures isolated)
     corpus = corpus_descs() if use_corpus else []
-    corpus_values = {}
-    for ps, is_resp, vals in corpus:
+    corpus_values, corpus_msgs = {}, {}
+    for ps, is_resp, vals, *more in corpus:
         corpus_values[len(descs)] = vals
+        corpus_msgs[len(descs)] = more[0] if more else []
         descs.append((ps, is_resp, None))
     for i, (ps, is_resp, g) in enumerate(descs):
         c = Case(ps, is_resp, f"m{i}")
@@ -86,7 +87,7 @@ def build_cases(rng, n_desc, gen_kwargs=None, values_per_stream=(2, 2, 1), decod
                     continue
                 c.encs.append(dict(value=v, req=req, stream=stream, impl=cc.impl_encode(c.obj, v, req)))
         # decode inputs: own encodings, their mutations, short strings
-        msgs = []
+        msgs = [(bytes(m), "corpus") for m in corpus_msgs.get(i, [])]
         for e in c.encs:
             if e["impl"][0] == 0:
                 pdu = bytes(e["impl"][1])
@@ -255,6 +256,14 @@ def corpus_descs():
                  cc.param("len", dict(k="lenkey", dop=cc.simple(cc.std(cc.BUINT, 8))), 1),
                  cc.param("blob", dict(k="value", dop=cc.simple(cc.paramlen(cc.BBYTES, "len")), dflt=None), 4)], False,
                 [{"blob": b""}, {"blob": b"xyz"}]))
+    # an end-marker field at the end of the PDU whose marker is wider than what is left behind the last item: the
+    # probe for the marker fails there, which ends the field (the items are kept)
+    em = dict(k="endmarker", s=cc.struct([cc.param("x", dict(k="value", dop=u8(), dflt=None))]),
+              tdop=cc.simple(cc.std(cc.BUINT, 16, None, True)), tval=0)
+    out.append(([cc.param("sid", dict(k="coded", dct=cc.std(cc.BUINT, 8), v=0x22)),
+                 cc.param("f", dict(k="value", dop=em, dflt=None))], False,
+                [{"f": [{"x": 5}, {"x": 7}]}, {"f": []}],
+                [bytes.fromhex(h) for h in ("220500", "22050000", "2205", "22", "2200", "220000", "22050600", "2205060000")]))
     # bit masks on little-endian and big-endian integers, with and without a bit position: the unmasked bits
     # come back, the masked ones are dropped
     for hl in (True, False):
